@@ -134,16 +134,27 @@ structure Cfg where
   revIter : Bool
   /-- repaired: every signal output's list is put back into the saved (firing) order -/
   firing : Bool
-  /-- pinned: value links are re-forged through the `value_receiver` setter, which pushes the
-  value through `InputData.value` (refused while the owner runs); repaired: plain assignment -/
-  pushLinks : Bool
+  /-- value links re-forged through the `value_receiver` setter, which pushes the value through the
+  receiver's value setter (an input refuses it while its owner runs); `false` = plain assignment of
+  `_value_receiver`.  Three places: `Macro` input links (repaired in the tree since 60885c9), `Macro`
+  output links, and both loops of `For.__setstate__` -/
+  pushIn : Bool
+  pushOut : Bool
+  pushFor : Bool
   /-- repaired: `Composite.__setstate__` keeps `_cached_inputs` (pinned: every re-adopted child calls
   back `add_child`, which resets it "after graph change") -/
   keepCache : Bool
   deriving DecidableEq, Repr
 
-def Cfg.pinned : Cfg := ⟨false, false, true, false⟩
-def Cfg.repaired : Cfg := ⟨true, true, false, true⟩
+/-- the tree as it is now -/
+def Cfg.pinned : Cfg := ⟨false, false, false, true, true, false⟩
+/-- with `fixes/C07-*.patch` applied -/
+def Cfg.repaired : Cfg := ⟨true, true, false, false, false, true⟩
+
+/-- does `__setstate__` of a node of this kind push through input / output links? -/
+def Cfg.pushesIn (cfg : Cfg) (k : Kind) : Bool := if k = .forLoop then cfg.pushFor else cfg.pushIn
+def Cfg.pushesOut (cfg : Cfg) (k : Kind) : Bool := if k = .forLoop then cfg.pushFor else cfg.pushOut
+def Cfg.anyPush (cfg : Cfg) : Bool := cfg.pushIn || cfg.pushOut || cfg.pushFor
 
 /-! ## label tables -/
 
@@ -166,9 +177,11 @@ def strings (dom : List Addr) (f : Addr → List Addr) : List (Addr × Addr) :=
 /-- `lexical_path` of a node without live parent -/
 def lexPath (det : Option Path) (label : Lbl) : Path := det.getD [] ++ [label]
 
-/-- `Runnable` strips live executors; `Lexical` records the live parent's path (`pp`), if any -/
+/-- `Runnable` strips live executors; `Node` drops the input cache of a run that has not finished;
+`Lexical` records the live parent's path (`pp`), if any -/
 def Core.forState (c : Core) (pp : Option Path) : Core :=
   { c with exec := c.exec.strip, bodyExec := c.bodyExec.strip,
+           cached := if c.running then none else c.cached,
            detached := match pp with
              | some p => some p
              | none => c.detached }
@@ -265,7 +278,7 @@ end
 
 /-- `for inp, (child, child_inp) in input_links: self.inputs[inp].value_receiver =
 self.children[child].inputs[child_inp]` -/
-def forgeIn (cfg : Cfg) (c : Core) : List Node → List (Lbl × Addr) → Except Err (List Node)
+def forgeIn (push : Bool) (c : Core) : List Node → List (Lbl × Addr) → Except Err (List Node)
   | cs, [] => .ok cs
   | cs, (x, r) :: rest =>
     if r ∉ inDom cs then .error .key
@@ -273,11 +286,11 @@ def forgeIn (cfg : Cfg) (c : Core) : List Node → List (Lbl × Addr) → Except
       match valOf c.ins x with
       | none => .error .key
       | some v =>
-        if cfg.pushLinks then
+        if push then
           match pushInL cs r.1 r.2 v with
           | .error e => .error e
-          | .ok cs' => forgeIn cfg c cs' rest
-        else forgeIn cfg c cs rest
+          | .ok cs' => forgeIn push c cs' rest
+        else forgeIn push c cs rest
 
 def outVals (cs : List Node) : List (Addr × Val) :=
   cs.flatMap fun n => n.core.outs.map fun ch => ((n.core.label, ch.label), ch.val)
@@ -287,14 +300,14 @@ def outValOf (cs : List Node) (r : Addr) : Option Val := ((outVals cs).find? fun
 
 /-- `for (child, child_out), out in output_links: self.children[child].outputs[child_out]
 .value_receiver = self.outputs[out]` (the macro's own output has no receiver yet) -/
-def forgeOut (cfg : Cfg) (cs : List Node) : Core → List (Addr × Lbl) → Except Err Core
+def forgeOut (push : Bool) (cs : List Node) : Core → List (Addr × Lbl) → Except Err Core
   | c, [] => .ok c
   | c, (r, out) :: rest =>
     match outValOf cs r with
     | none => .error .key
     | some v =>
       if out ∉ labelsOf c.outs then .error .key
-      else forgeOut cfg cs (if cfg.pushLinks then { c with outs := setVal c.outs out v } else c) rest
+      else forgeOut push cs (if push then { c with outs := setVal c.outs out v } else c) rest
 
 /-- every adopted child calls back `Composite.add_child`, which forgets the composite's cache
 (`self._cached_inputs = None  # Reset cache after graph change`) -/
@@ -320,10 +333,10 @@ def setstate (cfg : Cfg) (c : Core) (cs : List Node) (ds ss fo : List (Addr × A
       let dg := restore cfg ds
       let sg := restoreSig cfg ss fo
       if c.kind.hasLinks then
-        match forgeIn cfg c cs c.inLinks with
+        match forgeIn (cfg.pushesIn c.kind) c cs c.inLinks with
         | .error e => .error e
         | .ok cs' =>
-          match forgeOut cfg cs' c c.outLinks with
+          match forgeOut (cfg.pushesOut c.kind) cs' c c.outLinks with
           | .error e => .error e
           | .ok c' => .ok (.mk c' cs' dg sg)
       else .ok (.mk c cs dg sg)
@@ -400,8 +413,10 @@ structure Rec where
 
 def table (dom : List Addr) (f : Addr → List Addr) : List (Addr × List Addr) := dom.map fun a => (a, f a)
 
-/-- a node's record as far as it is state: live executors are not -/
-def Core.seen (c : Core) : Core := { c with exec := c.exec.strip, bodyExec := c.bodyExec.strip }
+/-- a node's record as far as it is state: a live executor is not, nor is the input cache of a run
+that has not finished -/
+def Core.seen (c : Core) : Core :=
+  { c with exec := c.exec.strip, bodyExec := c.bodyExec.strip, cached := if c.running then none else c.cached }
 
 mutual
 def obs (p : Path) : Node → List Rec
